@@ -65,6 +65,7 @@ def run(ctx):
     for name, F, q, kind in fields:
         r = F.byte_length
         lens = list(range(0, 41))
+        b_vs, b_data, b_back, b_fb, b_fbback = [], [], [], [], []
         for n in lens:
             for rep in range(ctx.n(1, 4)):
                 pool = [0, 1, q - 1, q // 2, min(q - 1, 255), min(q - 1, 256), min(q - 1, 65535), rng.randrange(q), rng.randrange(q),
@@ -84,8 +85,9 @@ def run(ctx):
                 if back != vs or [F(b) for b in back] != elems:
                     bad('roundtrip-wrong ' + name, field=name, values=vs, got=back)
                 ctx.case({'f': name, 'vs': vs}, nontrivial=n > 0, kind='%s len' % kind + ('=0' if n == 0 else '<=8' if n <= 8 else '>8'))
-                exprs.append('(Serial.to_bytes %s %s, Serial.from_bytes %s %s)' % (natlit(r), zlist(vs), natlit(r), zlist(list(data))))
-                meta.append(('rt', name, vs, list(data), back))
+                b_vs.append(vs)
+                b_data.append(list(data))
+                b_back.append(back)
         # arbitrary byte strings (decode only), incl. trailing partial chunk
         for rep in range(ctx.n(6, 30)):
             ln = rng.choice([0, 1, r - 1, r, r + 1, 2 * r, 3 * r + 1, rng.randrange(0, 5 * r + 3)])
@@ -94,9 +96,12 @@ def run(ctx):
             want = [int.from_bytes(data[i:i + r], 'little') for i in range(0, len(data), r)]
             if back != want:
                 bad('from_bytes-wrong ' + name, field=name, data=list(data), got=back)
-            exprs.append('Serial.from_bytes %s %s' % (natlit(r), zlist(list(data))))
-            meta.append(('fb', name, list(data), back))
+            b_fb.append(list(data))
+            b_fbback.append(back)
             ctx.case({'f': name, 'data': list(data)}, nontrivial=ln > 0, kind='%s decode' % kind)
+        exprs.append('(map (Serial.to_bytes %s) [%s], map (Serial.from_bytes %s) [%s])' % (
+            natlit(r), '; '.join(zlist(v) for v in b_vs), natlit(r), '; '.join(zlist(d) for d in b_data + b_fb)))
+        meta.append(('rt', name, b_vs, b_data, b_back + b_fbback))
         # out-of-range value: rejected
         for v in (256 ** r, -1):
             try:
@@ -186,9 +191,7 @@ def run(ctx):
                 good = r == m[2]
             elif m[0] == 'rt':
                 _, name, vs, data, back = m
-                good = r == (('Some', data), back)
-            elif m[0] == 'fb':
-                good = r == m[3]
+                good = list(r[0]) == [('Some', d_) for d_ in data] and list(r[1]) == back
             elif m[0] == 'rej':
                 good = r is None
             elif m[0] == 'view':
